@@ -15,6 +15,7 @@ generated histories on the real library under ASan/UBSan/LSan with the per-call 
 -/
 namespace SSVerif.Protocol
 
+set_option maxHeartbeats 4000000 in
 /-- **C09, totality (`step_total`).** Every call in every state returns a value of its documented class
 (`0`/`<0`, `NULL`/non-`NULL`, a count, the new reference count, nothing), or is classified out-of-protocol,
 in which case the state is unchanged. -/
@@ -43,7 +44,7 @@ value (`-1`, resp. `NULL`) and change nothing: `state' = state`. -/
 theorem C09_out_of_order_is_noop (s : ApiState) (c : Call) (h : outOfOrder s c) :
     step s c = (s, errorValue c) := by
   cases c <;> simp only [outOfOrder] at h <;>
-    (simp only [step, errorValue, latticeStep, ptrIf]
+    (simp only [step, errorValue, latticeStep, latOf, latSrcOk, ptrIf]
      (repeat' split) <;> simp_all)
 
 /-- a live decoder can always be brought to accept an utterance by at most two in-protocol calls that
@@ -82,19 +83,20 @@ aligner, JSON buffer or configuration is still owned by anything. -/
 theorem C09_ledger_balanced (cs : List Call) (hc : Closed (run init0 cs)) : ledger (run init0 cs) = [] := by
   have h := C09_reachable_wf cs
   obtain ⟨h0, hi, hl, ha⟩ := hc
-  obtain ⟨d1, d2, d3, d4, _, _⟩ := h.dead h0
+  obtain ⟨d1, d2, d3, d4, d5, d6⟩ := h.dead h0
   have hdag := (h.noSearch d1).1
   have hact : (run init0 cs).active = false := by
     cases hx : (run init0 cs).active
     · rfl
     · have := h.activeIff.mp hx
       rw [d2] at this; cases this
-  simp [ledger, h0, hi, hl, ha, d1, d3, d4, hdag, hact]
+  simp [ledger, h0, hi, hl, ha, d1, d3, d4, d5, d6, hdag, hact]
 
 /-- the iterator a call dereferences (anything but freeing it) -/
 def usesIter : Call → Option Nat
   | .segNext id _ => some id | .hypNext id _ => some id | .aliNext id _ => some id
   | .aliGoto id _ => some id | .hypSeg _ src _ => some src | .aliChild _ src _ => some src
+  | .lnodeNext id _ => some id | .llinkNext id _ => some id | .llink _ src _ => some src
   | _ => none
 
 /-- **C09, in-protocol calls touch live objects only.** In every reachable state, a call that advances,
@@ -160,12 +162,39 @@ theorem C09_used_iterators_are_live (cs : List Call) (c : Call) (id : Nat)
       · rename_i hc; exact single isAli it hf hc
       · exact absurd rfl hr
     · exact absurd rfl hr
+  case lnodeNext i l =>
+    subst hu; simp only [step] at hr
+    split at hr
+    · rename_i it hf
+      split at hr
+      · rename_i hc; exact single isLatN it hf hc
+      · exact absurd rfl hr
+    · exact absurd rfl hr
+  case llinkNext i l =>
+    subst hu; simp only [step] at hr
+    split at hr
+    · rename_i it hf
+      split at hr
+      · rename_i hc; exact single isLatL it hf hc
+      · exact absurd rfl hr
+    · exact absurd rfl hr
+  case llink d i e =>
+    subst hu; simp only [step] at hr
+    split at hr
+    · rename_i it hf _
+      split at hr
+      · split at hr
+        · rename_i hv
+          exact ⟨it, hf, hv, h.iters it (findIter_mem hf) hv⟩
+        · exact absurd rfl hr
+      · exact absurd rfl hr
+    · exact absurd rfl hr
 
 /-! ## non-vacuity: concrete histories -/
 
 /-- a complete utterance with queries, an abandoned segment iterator freed after the decoder, N-best,
 alignment, JSON -/
-def exFull : List Call := [.init true .good false, .hyp true, .start, .proc false true, .seg 0 true,
+def exFull : List Call := [.init .good false, .hyp true, .start, .proc false true, .seg 0 true,
   .segNext 0 false, .endUtt true, .nbest 100 true true, .hypSeg 1 100 true, .json 2 false true true,
   .alIter 200 .dec true true true true, .free, .segFree 0, .segFree 1, .hypFree 100, .aliFree 200]
 
@@ -175,11 +204,11 @@ example : Closed (run init0 exFull) ∧ ledger (run init0 exFull) = [] ∧
       .void, .void] := by decide
 
 /-- freeing in the middle of an utterance releases the active lists (repaired D16) -/
-example : ledger (run init0 [.init true .good false, .start, .proc false true]) =
+example : ledger (run init0 [.init .good false, .start, .proc false true]) =
     [.userDecoder, .decoderConfig, .decoderSearch, .searchActiveLists] ∧
-    ledger (run init0 [.init true .good false, .start, .proc false true, .free]) = [] := by decide
+    ledger (run init0 [.init .good false, .start, .proc false true, .free]) = [] := by decide
 
-def exS1 : ApiState := run init0 [.init false .good false]
+def exS1 : ApiState := run init0 [.init .good false]
 def exS2 : ApiState := run exS1 [.start]
 def exS3 : ApiState := run exS2 [.proc false true, .endUtt false]
 
@@ -188,15 +217,15 @@ audio after end (repaired D26), a query with no search; each hypothesis of `C09_
 met by a reachable state -/
 example : outOfOrder exS1 (.proc false true) ∧ outOfOrder exS1 (.endUtt false) ∧ outOfOrder exS2 .start ∧
     outOfOrder exS3 (.proc false true) ∧ step exS3 (.proc false true) = (exS3, .err) ∧
-    outOfOrder (run init0 [.init false .none false]) (.hyp true) := by decide
+    outOfOrder (run init0 [.init .none false]) (.hyp true) := by decide
 
 def exStale : ApiState :=
-  run init0 [.init true .good false, .start, .proc false true, .seg 0 true, .endUtt false, .start]
+  run init0 [.init .good false, .start, .proc false true, .seg 0 true, .endUtt false, .start]
 
 /-- using an iterator after its source was released is out-of-protocol, freeing it is not; while the source
 is alive the iterator is used in-protocol (hypothesis of `C09_used_iterators_are_live`) -/
 example : (step exStale (.segNext 0 false)).2 = .oop ∧ (step exStale (.segFree 0)).2 = .void ∧
-    (step (run init0 [.init true .good false, .start, .proc false true, .seg 0 true]) (.segNext 0 false)).2 = .ptr := by
+    (step (run init0 [.init .good false, .start, .proc false true, .seg 0 true]) (.segNext 0 false)).2 = .ptr := by
   decide
 
 end SSVerif.Protocol
